@@ -5,9 +5,10 @@ temporary directory outside /repo and /verif, removed afterwards) and the same c
 copy.  A mutant is *detected* when the check reports a failing instance whose key was not failing
 on the unmodified tree (or when it can no longer analyse: counted separately).  An unedited twin
 copy must produce no new key.  Misses are printed as SELFTEST-MISS and recorded in the evidence;
-they never change the verdict about /repo.  Five behaviour-preserving twins (unedited, re-printed
+they never change the verdict about /repo.  Seven behaviour-preserving twins (unedited, re-printed
 with ast.unparse, locals renamed, arms of every two-armed `if` swapped, a debug log call added to
-every function and with-block) must each give exactly the verdict of the original tree.
+every function and with-block, every function / loop body wrapped in try-except-reraise, every
+returned expression bound to a temporary first) must each give exactly the verdict of the original tree.
 """
 
 from __future__ import annotations
@@ -54,10 +55,10 @@ def _run_one(args) -> dict:
     tmp = Path(tempfile.mkdtemp(prefix=f"sa-mut-{prop}-"))
     try:
         _copy_tree(Path(src_root), tmp)
-        if name in ("twin-unparse", "twin-rename", "twin-flip", "twin-log"):
+        if name.startswith("twin-") and name != "twin-unedited":
             from .twin import rewrite_tree
 
-            rewrite_tree(tmp, rename=(name == "twin-rename"), mode={"twin-flip": "flip", "twin-log": "log"}.get(name, ""))
+            rewrite_tree(tmp, rename=(name == "twin-rename"), mode={"twin-flip": "flip", "twin-log": "log", "twin-try": "try", "twin-retvar": "retvar"}.get(name, ""))
             keys, err = _failing_keys(prop, tmp, tier)
             new = sorted(keys - set(baseline))
             gone = sorted(set(baseline) - keys)
@@ -110,7 +111,9 @@ def run_selftest(ctx: Context, mod) -> None:
             (ctx.prop, str(ctx.repo.root), "twin-unparse", [], baseline, ctx.tier),
             (ctx.prop, str(ctx.repo.root), "twin-rename", [], baseline, ctx.tier),
             (ctx.prop, str(ctx.repo.root), "twin-flip", [], baseline, ctx.tier),
-            (ctx.prop, str(ctx.repo.root), "twin-log", [], baseline, ctx.tier)]
+            (ctx.prop, str(ctx.repo.root), "twin-log", [], baseline, ctx.tier),
+            (ctx.prop, str(ctx.repo.root), "twin-try", [], baseline, ctx.tier),
+            (ctx.prop, str(ctx.repo.root), "twin-retvar", [], baseline, ctx.tier)]
     for name, edits in muts:
         jobs.append((ctx.prop, str(ctx.repo.root), name, edits, baseline, ctx.tier))
     # seeded changes (independent agents, confirmed by a demonstration): those recorded as caught by this property
@@ -130,8 +133,8 @@ def run_selftest(ctx: Context, mod) -> None:
     workers = min(16, max(1, len(jobs)))
     with ProcessPoolExecutor(max_workers=workers) as ex:
         results = list(ex.map(_run_one, jobs))
-    twins = results[:5]
-    results = [results[0]] + results[5:]
+    twins = results[:7]
+    results = [results[0]] + results[7:]
     twin = results[0]
     twin_ok = all(t["status"] == "missed" for t in twins)  # no key changes on unedited / re-printed / renamed copies
     for t in twins:
